@@ -8,6 +8,7 @@ import (
 	"google.golang.org/protobuf/proto"
 	"google.golang.org/protobuf/types/known/fieldmaskpb"
 
+	"github.com/smart-core-os/sc-api/go/traits"
 	"github.com/smart-core-os/sc-golang/internal/testproto"
 	"github.com/smart-core-os/sc-golang/internal/vt"
 	"github.com/smart-core-os/sc-golang/internal/vth"
@@ -196,5 +197,31 @@ func VT_C06_CorruptMasks() {
 	c := proto.Clone(orig)
 	panicked2, _ := vt.Try(func() { f.Filter(c) })
 	vt.Assert(!panicked2, "corrupt-mask-never-panics-filter")
+	vt.Reach("done")
+}
+
+// Sibling fields whose names are textual prefixes of each other (preset / preset_index) are independent mask paths.
+func VT_C06_SiblingPrefixFields() {
+	orig := &traits.FanSpeed{Preset: vt.StrOrd("preset"), PresetIndex: vt.Int32("index"), Percentage: 40}
+	before := proto.Clone(orig).(*traits.FanSpeed)
+	masks := []*RM{vth.Mask("preset", "preset_index"), vth.Mask("preset_index", "preset"), vth.Mask("preset"), vth.Mask("preset_index"), vth.Mask("percentage", "preset_index")}
+	mask, _ := vth.PickMask("mask", masks)
+	got := NewResponseFilter(WithFieldMask(mask)).FilterClone(orig).(*traits.FanSpeed)
+	if keep(mask, "preset") {
+		vt.Assert(got.Preset == before.Preset, "selected-field-kept")
+	} else {
+		vt.Assert(got.Preset == "", "unselected-field-absent")
+	}
+	if keep(mask, "preset_index") {
+		vt.Assert(got.PresetIndex == before.PresetIndex, "selected-sibling-with-longer-name-kept")
+	} else {
+		vt.Assert(got.PresetIndex == 0, "unselected-sibling-absent")
+	}
+	if keep(mask, "percentage") {
+		vt.Assert(got.Percentage == before.Percentage, "selected-field-kept")
+	} else {
+		vt.Assert(got.Percentage == 0, "unselected-field-absent")
+	}
+	vt.Assert(proto.Equal(orig, before), "filter-clone-does-not-alter-its-argument")
 	vt.Reach("done")
 }
